@@ -8,7 +8,10 @@ package explore
 import (
 	"fmt"
 	"hash/fnv"
+	"os"
 	"sort"
+	"strconv"
+	"strings"
 	"time"
 
 	"verif/vrt"
@@ -310,6 +313,11 @@ func Explore(run RunFunc, opt Options, st *Stats) {
 			st.CapHit = "internal deadline"
 			break
 		}
+		if MemCapBytes > 0 && st.Executions&127 == 0 && overMemCap() {
+			st.Exhaustive = false
+			st.CapHit = fmt.Sprintf("memory cap (resident set above %d MB)", MemCapBytes>>20)
+			break
+		}
 		if opt.MaxExecs > 0 && st.Executions >= int64(opt.MaxExecs) {
 			st.Exhaustive = false
 			st.CapHit = fmt.Sprintf("execution cap %d", opt.MaxExecs)
@@ -397,3 +405,30 @@ func Hash64(b []byte) uint64 {
 
 // HashString hashes a string.
 func HashString(s string) uint64 { return Hash64([]byte(s)) }
+
+// MemCapBytes: when the process's resident set exceeds it, explorations stop gracefully and report the cap (0 = none).
+var MemCapBytes int64
+
+var memCapTripped bool
+
+func overMemCap() bool {
+	if memCapTripped {
+		return true
+	}
+	b, err := os.ReadFile("/proc/self/statm")
+	if err != nil {
+		return false
+	}
+	f := strings.Fields(string(b))
+	if len(f) < 2 {
+		return false
+	}
+	pages, err := strconv.ParseInt(f[1], 10, 64)
+	if err != nil {
+		return false
+	}
+	if pages*int64(os.Getpagesize()) > MemCapBytes {
+		memCapTripped = true
+	}
+	return memCapTripped
+}
